@@ -39,6 +39,7 @@ type Obligation struct {
 	Output string
 	vc     *FnVC
 	Props  []string
+	ResultTerms []string // post obligations: the SMT terms of the returned values (for replay)
 }
 
 const (
@@ -108,6 +109,7 @@ type LoopInfo struct {
 }
 
 type FnVC struct {
+	retTerms []string // SMT terms of the values returned at the return being processed
 	eng      *Engine
 	fn       *ssa.Function
 	con      *Contract
@@ -252,6 +254,9 @@ func (vc *FnVC) assert(kind, desc, cond string) *Obligation {
 	name := fmt.Sprintf("%s/%s#%d", vc.key, base, vc.occ[base])
 	o := &Obligation{Name: name, Kind: kind, Desc: desc, Pos: vc.posString(), Fn: vc.key, Prefix: len(vc.body), vc: vc,
 		Goal: sAnd(vc.pathCond(), sNot(cond))}
+	if kind == "post" {
+		o.ResultTerms = vc.retTerms
+	}
 	vc.obls = append(vc.obls, o)
 	vc.assume(cond)
 	return o
@@ -840,7 +845,7 @@ func isRegimeIface(t types.Type) bool {
 	if n.Obj().Pkg() == nil {
 		return false
 	}
-	return n.Obj().Pkg().Path() == "github.com/DemoHn/Zn/pkg/runtime" && n.Obj().Name() == "Element"
+	return n.Obj().Pkg().Path() == "github.com/DemoHn/Zn/pkg/runtime" && (n.Obj().Name() == "Element" || n.Obj().Name() == "ExportableElement")
 }
 
 func (vc *FnVC) regimeFacts(term string, t types.Type, depth int) string {
@@ -1206,4 +1211,14 @@ func privateSlice(a *ssa.Alloc) bool {
 		}
 	}
 	return true
+}
+
+// declareRuneFns declares the character view of strings: gs.runeCount(s) = len([]rune(s)), gs.runeAtIdx(s,i) = []rune(s)[i].
+func (vc *FnVC) declareRuneFns() {
+	vc.sorts.declareFun("gs.runeCount", "(Str) Int")
+	vc.sorts.declareFun("gs.runeAtIdx", "(Str Int) Int")
+	if !vc.declSeen["axiom:runeCount"] {
+		vc.declSeen["axiom:runeCount"] = true
+		vc.axioms = append(vc.axioms, "(assert (forall ((s Str)) (! (and (<= 0 (gs.runeCount s)) (<= (gs.runeCount s) (gs.len s))) :pattern ((gs.runeCount s)))))")
+	}
 }
